@@ -162,3 +162,46 @@ pub fn run(a: &Args) {
         "every buffer enumerated by TLC (Gen_NameWire: all buffers up to L over the boundary alphabet) decoded at every start offset; real-constant families (label 62..65, name 250..258 direct and via pointer, pointer shapes and chains); seeded random pointer-heavy buffers; non-trivial = some start decodes to a non-root name",
         false));
 }
+
+/// step-level binding: one NameBegin / NameStep* / NameEnd session per (buffer, start)
+pub fn run_steps(a: &Args) {
+    let mut out = Out::new(&a.out, a.shards);
+    let mut st = Stats::default();
+    let mut session = 0usize;
+    let mut one = |out: &mut Out, st: &mut Stats, b: &[u8], at: usize| {
+        simple_dns::verif::arm_trace();
+        let r = guarded(|| parse_name(b, at).map(|_| ()));
+        let steps = simple_dns::verif::take_trace();
+        let shard = session;
+        session += 1;
+        out.emit_to(shard, json!({"ev": "NameBegin", "b": bytes_json(b), "at": at}));
+        for s in &steps {
+            out.emit_to(shard, json!({"ev": "NameStep", "arm": s[0], "pos": s[1], "ptr": s[2], "size": s[3]}));
+        }
+        let outc = match r {
+            Ok(Ok(())) => "ok",
+            Ok(Err(_)) => "err",
+            Err(_) => "panic",
+        };
+        out.emit_to(shard, json!({"ev": "NameEnd", "out": outc}));
+        st.case((b, at), steps.len() > 1);
+        st.sessions += 1;
+    };
+    if let Some(p) = a.cases.first() {
+        for line in std::io::BufReader::new(std::fs::File::open(p).unwrap()).lines() {
+            let v: Value = serde_json::from_str(&line.unwrap()).unwrap();
+            let b = json_bytes(&v["b"]);
+            for at in 0..=b.len() {
+                one(&mut out, &mut st, &b, at);
+            }
+        }
+    }
+    for (_, b, starts) in families() {
+        for at in starts {
+            one(&mut out, &mut st, &b, at);
+        }
+    }
+    out.finish(st.into_json("namesteps",
+        "every (buffer, start) of Gen_NameWire and of the real-constant families: the loop-arm events recorded by the hook inside Name::parse, replayed one TLC step per event against the Impl model MC_NameWire; non-trivial = more than one step",
+        false));
+}
